@@ -159,7 +159,7 @@ pub fn check_library(lib: &[(String, String)], tag: &str, many: bool, d19_open: 
                 break 'outer;
             }
             if got.1 != base.1 {
-                if mode == "insert" && d19_open {
+                if mode == "insert" && d19_open && c04::d19_explains(&base.1, &got.1) {
                     attributed = true;
                     continue;
                 }
